@@ -110,6 +110,15 @@ func GenDoc(r *Rand, o *DocOpts) Doc {
 		for j := 0; j < nv; j++ {
 			in.Values = append(in.Values, genDocValue(r, o))
 		}
+		if o.OddValues && r.Chance(1, 15) {
+			// a long tie: many values whose denominators share few factors (their
+			// product is far beyond 64 bits, their sum is a small number)
+			d := Pick(r, []string{"1000", "7919", "960", "4099", "65521"})
+			in.Values = []string{Pick(r, []string{"1", "2", "1/2"})}
+			for k := 5 + r.Intn(8); k > 0; k-- {
+				in.Values = append(in.Values, fmt.Sprintf("%d/%s", 1+r.Intn(3), d))
+			}
+		}
 		if o.EdgeValues && r.Chance(1, 3) {
 			// several fractions over one huge denominator that add up to a small sum
 			pair := Pick(r, [][2]string{{"4294967296", "4294967295"}, {"4294967295", "4294967294"}, {"18446744073709551615", "18446744073709551614"}, {"9223372036854775808", "9223372036854775807"}, {"65536", "65535"}, {"4294967297", "4294967296"}})
